@@ -139,6 +139,22 @@ def expr_vars(e):
     return out
 
 
+def expr_vars_deep(e):
+    """variables of an expression including those inside the patterns of EXISTS / NOT EXISTS"""
+    out = set(expr_vars(e))
+    if isinstance(e, list) and e:
+        if e[0] in ("exists", "notexists"):
+            return out | all_vars(e[1])
+        for x in e[1:]:
+            if isinstance(x, list):
+                if x and isinstance(x[0], str):
+                    out |= expr_vars_deep(x)
+                else:
+                    for y in x:
+                        out |= expr_vars_deep(y)
+    return out
+
+
 def filter_out_of_scope(p):
     """class of known finding C04-filter-out-of-scope-var: a FILTER (or OPTIONAL filter) mentions a variable that is not in scope in
     its own group but is in scope elsewhere in the query (RDFLib evaluates groups with outer bindings pushed in)"""
@@ -175,11 +191,11 @@ def pushes_into_scoped_operator(p):
                     if x[0] == "bgp":
                         rv |= ref.in_scope(x)
                     elif x[0] in ("filter",):
-                        rv |= expr_vars(x[1])
+                        rv |= expr_vars_deep(x[1])  # (a pushed binding also reaches the pattern of an EXISTS)
                     elif x[0] == "bind":
-                        rv |= expr_vars(x[2]) | {x[3]}
+                        rv |= expr_vars_deep(x[2]) | {x[3]}
                     elif x[0] == "opt" and x[3] is not None:
-                        rv |= expr_vars(x[3])
+                        rv |= expr_vars_deep(x[3])
                     elif x[0] == "values":
                         rv |= set(x[1])
                 if lv & rv or (lv and contains(right, "minus")):
